@@ -15,7 +15,7 @@ for d in $base/b*; do
       echo "$out" | grep -A2 "^VIOLATION" | grep -v "^--" | cut -c1-420 > $d/alarm_C$p.txt
     fi
   done
-  git checkout -- .
+  git checkout -- . && git clean -fdq
   kind=$(python3 -c "import json;print(json.load(open('$d/meta.json')).get('kind',''))" 2>/dev/null)
   if [ -z "$res" ]; then echo "$d ($kind): silent"; else echo "$d ($kind): ALARM$res"; fi
 done
